@@ -7,7 +7,7 @@ P=$1; DIR=$2; DEST=$3; CMD=$4; TIER=${5:-quick}
 export GOFLAGS=-mod=mod GOPROXY=off GOSUMDB=off GOTOOLCHAIN=local
 W=/tmp/confirm-$P-$$
 git -C /repo worktree add -q --detach $W HEAD || exit 2
-trap 'git -C /repo worktree remove --force $W; /verif/tools/rebuild.sh' EXIT
+trap 'cd /; git -C /repo worktree remove --force $W; /verif/tools/rebuild.sh' EXIT
 cd $W; mkdir -p $W/$DEST
 for f in $DIR/*_test.go; do cp "$f" "$W/$DEST/"; done
 echo "== demo WITHOUT patch:"; (timeout 300 bash -c "$CMD" 2>&1 | grep -E "^(ok|FAIL|---|PASS|panic)" | head -8)
